@@ -1,6 +1,7 @@
 //! One module per group of properties.
 
 pub mod bounds;
+pub mod cli;
 pub mod dynamic;
 pub mod encodings;
 pub mod independence;
@@ -21,6 +22,7 @@ pub fn run(ctx: &mut Ctx, prop: &str) -> bool {
         "C04" => static_eval::run(ctx, static_eval::Prop::C04),
         "C07" => static_eval::run(ctx, static_eval::Prop::C07),
         "C08" | "C09" => dynamic::run(ctx, prop),
+        "C05" => cli::run_c05(ctx),
         "C06" => independence::run(ctx),
         "C10" => encodings::run(ctx),
         "C11" => metamorphic::run(ctx),
@@ -45,6 +47,7 @@ pub fn replay(ctx: &mut Ctx, prop: &str, case: &Value, detail: &Value, signature
         "C04" => static_eval::replay(ctx, static_eval::Prop::C04, case, detail),
         "C07" => static_eval::replay(ctx, static_eval::Prop::C07, case, detail),
         "C08" | "C09" => dynamic::replay(ctx, prop, case),
+        "C05" => cli::replay_c05(ctx, case),
         "C06" => independence::replay(ctx, case, detail, signature),
         "C10" => encodings::replay(ctx, case, detail),
         "C11" => metamorphic::replay(ctx, case),
